@@ -98,10 +98,49 @@ def run(chk) -> None:
                 chk.ob("C07.R1", f"{base}.{dn} exists", False, m=mrp, node=mrp.classes[base], instance=f"operator:{base}.{dn}", reason="operator missing")
                 continue
             other = fn.args.args[1].arg
-            rets = [r.value for r in ast.walk(fn) if isinstance(r, ast.Return) and r.value is not None]
-            want = [other, "self"] if swapped else ["self", other]
-            ok = len(rets) == 1 and isinstance(rets[0], ast.Call) and last(call_name(rets[0])) == target and [ast.unparse(a) for a in rets[0].args] == want
-            chk.ob("C07.R1", f"{base}.{dn} builds {target}({', '.join(want)})", ok, m=mrp, node=fn, fn=fn, instance=f"operator:{base}.{dn}", reason=f"returns `{ast.unparse(rets[0]) if rets else None}`")
+            # semantic: for a leaf, an OR-combinator and an AND-combinator as `self`, and a leaf as the other operand, the object
+            # the operator builds evaluates to (self op other) on every boolean assignment of the leaves. (Flattening an
+            # operand of the same kind is fine; unwrapping one of the other kind is not.)
+            op = "and" if dn in ("__and__", "__rand__") else "or"
+            fam = [c_ for c_ in COMBINATORS if c_.startswith(target.split("_")[0] + "_")]
+            is_retry = target.startswith("retry")
+            bad_ = ""
+            n_eval = 0
+            try:
+                menv: dict = {}
+                for q_, f_ in mrp.functions.items():
+                    if "." not in q_ and isinstance(f_, ast.FunctionDef):
+                        menv[q_] = ("__fn__", f_, menv)
+                for c_ in list(COMBINATORS) + list(DUNDERS):
+                    menv[c_] = Record("class", __name__=c_)
+                hooks_ = {c_: (lambda *a_, _c=c_, **k_: Record(_c, **{_init_field(mrp, _c): tuple(a_)})) for c_ in COMBINATORS}
+                hooks_["getattr"] = lambda o_, n_, *d_: (o_.__dict__[n_] if isinstance(o_, Record) and n_ in o_.__dict__ else (d_[0] if d_ else (_ for _ in ()).throw(Raised("AttributeError", n_))))
+                hooks_["isinstance"] = lambda o_, t_: isinstance(o_, Record) and (getattr(t_, "__name__", None) == o_._cls or (isinstance(t_, tuple) and any(getattr(x_, "__name__", None) == o_._cls for x_ in t_)))
+                for shape in ("leaf",) + tuple(fam):
+                    nleaf = 1 if shape == "leaf" else 2
+                    for bits in itertools.product([False, True], repeat=nleaf + 1):
+                        leaves = [(lambda *a_, _v=v_, **k_: _v) for v_ in bits]
+                        if shape == "leaf":
+                            selfv, self_truth = leaves[0], bits[0]
+                        else:
+                            selfv = Record(shape, **{_init_field(mrp, shape): (leaves[0], leaves[1])})
+                            self_truth = (bits[0] or bits[1]) if COMBINATORS[shape][0] == "or" else (bits[0] and bits[1])
+                        other_truth = bits[-1]
+                        built = Interp(menv, hooks_).call_function(fn, {"self": selfv, other: leaves[-1]})
+                        if not (isinstance(built, Record) and built._cls in COMBINATORS):
+                            bad_ = bad_ or f"with self = {shape}: the operator returns {built!r}, not a combinator"
+                            continue
+                        callargs = [Record("Exception")] if is_retry else [3, 1.5]
+                        got_ = Interp(menv, hooks_).apply(built, callargs, {} if is_retry else {"upcoming_sleep": 0.25})
+                        n_eval += 1
+                        want_ = (self_truth and other_truth) if op == "and" else (self_truth or other_truth)
+                        if bool(got_) != want_:
+                            bad_ = bad_ or f"self = {shape}{tuple(bits[:nleaf])}, other = {other_truth}: the built {built._cls} evaluates to {bool(got_)}, `self {'&' if op == 'and' else '|'} other` is {want_}"
+            except (Unsupported, Raised) as e_:
+                raise AnchorError(f"C07.R1: cannot evaluate {base}.{dn}: {e_}")
+            cases += n_eval
+            chk.ob("C07.R1", f"{base}.{dn}: the object built for `self {'&' if op == 'and' else '|'} other` is the logical {op.upper()} of the two, for a leaf and for either kind of combinator as self", not bad_, m=mrp, node=fn, fn=fn,
+                   instance=f"operator:{base}.{dn}", reason=bad_)
     # wait_combine
     wc = mrp.functions.get("wait_combine.__call__")
     if wc is None:
@@ -323,6 +362,9 @@ def _bounded_by_max(e: ast.AST, mod=None, _depth: int = 2) -> bool:
 
 
 TWINS = [
+    Twin("operators unwrap a combinator of either kind", "packages/llama-index-workflows/src/workflows/retry_policy.py", "    def __or__(self, other: RetryCondition) -> retry_any:\n        return retry_any(self, other)", "    def __or__(self, other: RetryCondition) -> retry_any:\n        return retry_any(*getattr(self, \"retries\", (self,)), other)", "C07.R1"),
+    Twin("benign: operands through a splatted tuple", "packages/llama-index-workflows/src/workflows/retry_policy.py", "    def __or__(self, other: RetryCondition) -> retry_any:\n        return retry_any(self, other)", "    def __or__(self, other: RetryCondition) -> retry_any:\n        conditions = (self, other)\n        return retry_any(*conditions)", None),
+    Twin("benign: same-kind operands are flattened", "packages/llama-index-workflows/src/workflows/retry_policy.py", "    def __or__(self, other: RetryCondition) -> retry_any:\n        return retry_any(self, other)", "    def __or__(self, other: RetryCondition) -> retry_any:\n        return retry_any(*(self.retries if isinstance(self, retry_any) else (self,)), other)", None),
     Twin("retry_any is all", RP_REL, "        return any(retry(error) for retry in self.retries)", "        return all(retry(error) for retry in self.retries)", "C07.R1"),
     Twin("stop_all ignores last", RP_REL, "        return all(\n            stop(attempts, elapsed_time, upcoming_sleep=upcoming_sleep)\n            for stop in self.stops\n        )", "        return all(\n            stop(attempts, elapsed_time, upcoming_sleep=upcoming_sleep)\n            for stop in self.stops[:-1]\n        )", "C07.R1"),
     Twin("stop_any drops upcoming sleep", RP_REL, "        return any(\n            stop(attempts, elapsed_time, upcoming_sleep=upcoming_sleep)", "        return any(\n            stop(attempts, elapsed_time)", "C07.R1"),
